@@ -54,7 +54,7 @@ def judge(ctx, designs, evals, res, known, nontrivial, tag):
             ctx.violation("C07/server/%s" % what.split(":")[0], "design %s route %s: %s %s" % (d["id"], rid, what, detail or ""),
                           {"design": d, "probe": rid, "what": what})
         diffs = oc.diff_tables(obs, ideal)
-        if not diffs and ctx.cov["evaluations"] % 7 == 0:
+        if len(ctx.cov["samples"]) < 4:
             ctx.sample({"design": d["id"], "ops": len(obs["srvOps"]), "doc3": len(obs["doc3"]), "doc2": len(obs["doc2"]), "verdicts": obs["verdicts"]})
         # one further deviation that accounts for the whole design (the usual case when a single defect is present)
         whole = None
